@@ -27,9 +27,24 @@ _EXPECTED_PARTIAL_OPS = [
     "consumeFieldFromRight slice consumed[:i]",
 ]
 
+# the same for the post-query stage of the details prober (detailsprober.go, details/*.go, params/encode.go, utils.go,
+# validation.go, validators/*.go): file, function, kind, operand text
+_EXPECTED_DETAILS_PARTIAL_OPS = [
+    "detailsprober.go HandleSuccess assert result.(details.Details)",
+    "detailsprober.go HandleSuccess panic",
+    "details.go MustNewDetailsFromParams panic",
+    "details.go NewDetailsFromParams index players[i]",
+    "details.go NewDetailsFromParams index details.Players[i]",
+    "details.go NewDetailsFromParams index objectives[i]",
+    "details.go NewDetailsFromParams index details.Objectives[i]",
+    "info.go MustNewInfoFromParams panic",
+    "encode.go unmarshal index params[paramName]",
+    "validation.go MustNew panic",
+]
+
 
 def _c07_nontrivial(t):
-    # q/flood timeout dgrams: at least one non-empty datagram
+    # q/flood/dp timeout dgrams: at least one non-empty datagram
     return len(t) >= 4 and t[3] not in ("_", "-")
 
 
@@ -43,18 +58,30 @@ def _c07_extra(results):
             k = "panic"
         elif k.startswith("err:other"):
             k = "err:other"
+        elif k.startswith("err-other"):
+            k = "err-other"
+        elif k.startswith("ok:"):
+            k = "ok"
+        if inp.split()[1:2] == ["dp"]:
+            k = "dp:" + k
         classes[k] = classes.get(k, 0) + 1
         if "late" in toks:
             late += 1
     facts = os.path.join(os.path.dirname(os.path.dirname(os.path.abspath(__file__))), "..", "lean", "Swat4", "Gen", "Facts.lean")
     drift = None
+    ddrift = None
     try:
-        m = re.search(r"def gs1PartialOps : List String := \[(.*)\]", open(facts).read())
+        text = open(facts).read()
+        m = re.search(r"def gs1PartialOps : List String := \[(.*)\]", text)
         got = re.findall(r'"((?:[^"\\]|\\.)*)"', m.group(1)) if m else None
         drift = None if got is None else (got != _EXPECTED_PARTIAL_OPS)
+        m = re.search(r"def detailsPartialOps : List String := \[(.*)\]", text)
+        got = re.findall(r'"((?:[^"\\]|\\.)*)"', m.group(1)) if m else None
+        ddrift = None if got is None else (got != _EXPECTED_DETAILS_PARTIAL_OPS)
     except OSError:
         pass
-    return {"impl_result_classes": classes, "late_returns": late, "partial_op_inventory_drift": drift}
+    return {"impl_result_classes": classes, "late_returns": late, "partial_op_inventory_drift": drift,
+            "details_partial_op_inventory_drift": ddrift}
 
 
 CFG = {
@@ -71,6 +98,20 @@ CFG = {
         "Swat4.C07.parse_total",
         "Swat4.C07.expand_total",
         "Swat4.C07.facts_ok",
+        "Swat4.C07.details_facts_ok",
+        "Swat4.C07.detailsOf_total",
+        "Swat4.C07.probe_classes",
+        "Swat4.C07.probe_total",
+        "Swat4.C07.accepted_sound",
+        "Swat4.C07.probe_ok_accepted",
+        "Swat4.C07.ratioOk_iff_spec",
+        "Swat4.C07.ratioSpec_iff_spec",
+        "Swat4.C07.ratio_rejects_two_slashes",
+        "Swat4.C07.ratio_tag_rejects_two_slashes",
+        "Swat4.C07.accepted_hostport",
+        "Swat4.C07.accepted_ratios",
+        "Swat4.C07.accepted_players",
+        "Swat4.C07.accepted_objectives",
     ],
     "shards": (8, 16),
     "nontrivial": _c07_nontrivial,
@@ -84,17 +125,41 @@ CFG = {
             "numbers with finals anywhere; all permutations of 2..4-fragment responses plus a duplicate; mixed dialects; datagrams "
             "longer than the 2048-byte read buffer; a responder that floods a never-completing fragment. Compared: result class "
             "(response/err:incomplete/err:malformed/timeout) and the canonical decoded content; oracle on the implementation's "
-            "output: no panic (recovered on the calling goroutine), returned within timeout+1.5 s. non-trivial = at least one non-empty datagram",
+            "output: no panic (recovered on the calling goroutine), returned within timeout+1.5 s. "
+            "Op dp runs the real DetailsProber.Probe (gs1.Query -> details.NewDetailsFromParams -> Details.Validate with the ratio validator) "
+            "against the same responder: statuses the prober accepts (0..16 players, 0..7 objectives, optional fields left out at random) in all "
+            "six dialects, 1..7 fragments, shuffled at random; every value of targeted pools once per kind of field and then one or two random "
+            "mutations per case - ratio fields: empty, 0/0, 1/2, 1/2/3, 0/0/0, 1//2, /1, 1/, /, //, signed parts (-1/2, +1/2, 1/-2, -0/5, +0/+0), "
+            "padded, non-ASCII digits, 2^63-1, 2^63 and 20-digit parts, leading zeros, 0x, _; int fields: empty, signs, hex, exponent, padded, "
+            "2^31, 2^63-1, 2^63, -2^63, -2^63-1; bool fields: 1 0 true false TRUE yes empty 2 ...; team/coopstatus/objective status: -1..6, +1, 01, -0; "
+            "required fields missing or empty (incl. hostport, player name); unknown and misplaced names; plus every 10th stream of op q. Compared: "
+            "result class (ok/err-timeout/err-query/err-parse/err-validate) and the canonical rendering of the returned details.Details; oracle "
+            "on the implementation's output: no panic, returned within timeout+1.5 s, and a returned details value satisfies every validated "
+            "constraint (DetailsSpec.accepted, read back from the rendering). non-trivial = at least one non-empty datagram",
     "assumptions": [
         "the read-deadline goroutine of gs1.Query (conn.SetReadDeadline on context expiry) is runtime behaviour: measured (never `late`), not proved; the model's `timeout` outcome stands for it",
         "the model's slice bound is len (Go's is cap for s[:hi]): the model panics at least whenever the code would",
         "datagrams longer than 2048 bytes are cut by the read (Linux recvfrom semantics), modelled as take 2048",
         "the inventory of index/slice expressions of gs1.go the model was written against is regenerated into Gen/Facts.lean; drift is reported in the evidence (partial_op_inventory_drift), not a violation",
+        "post-query stage: the struct schemas (field order, param names, kinds, validate tags of details.Info/Player/Objective and the tags of details.Details) are regenerated from the compiled packages on every run; details_facts_ok (by decide) is everything the model and the theorems assume about them",
+        "validator semantics modelled, not proved (go-playground/validator v10.26.0 as vendored in the module cache; tied by the differential run): `required` on the non-pointer struct field Info is skipped (validator.New() without WithRequiredStructEnabled) and the nested struct is validated; `dive` validates every slice element, an empty slice passes; `required` = non-zero value; `oneof` on an int compares strconv.FormatInt with the space-separated items; a custom validator is run on empty strings too; the result is an error iff any tag of any field fails",
+        "the inventory of partial operations of the post-query stage (Facts.detailsPartialOps) is reported in the evidence when it drifts (details_partial_op_inventory_drift), not a violation; a panic inside a validator or Unmarshal is caught by the differential run as the output panic:<text>",
+        "the panic is recovered on the goroutine that calls Probe (in production a proberunner worker without recover); Probe starts no goroutine of its own besides gs1.Query's deadline watcher",
     ],
-    "trusted_base": COMMON_TRUSTED,
+    "trusted_base": COMMON_TRUSTED + [
+        "go-playground/validator v10.26.0 semantics of required/gt/gte/oneof/dive as modelled in Model/Details.lean and Model/Heartbeat.lean (tied by the differential run of op dp)",
+        "struct schemas read by reflection from the compiled details package into Gen/Facts.lean",
+    ],
     "manifest": {
-        "text": "Lean theorems over the model of gs1.go (every index/slice expression a checked operation with outcome panic, the scan loop on fuel with outcome hang): feed_total/feed_terminates — processing any datagram after any received prefix neither panics nor loops; feed_cases/runQuery_classes — every datagram sequence ends in response, error (incomplete/malformed) or timeout; empty_datagram; per-function totality (inspect_total, collect_total, parse_total, expand_total); collect_within_cap — the buffer capacity is the sum over all inspected fragments. The model is tied to the code by running the real gs1.Query against a scripted UDP responder on hostile sequences and comparing result class and decoded content; panics are recovered and reported, latency beyond timeout+slack is reported as late.",
-        "level_note": "Trusted: Lean kernel; axioms propext, Quot.sound, Classical.choice; the finite differential run as evidence that Model/GS1.lean behaves like gs1.go; generated Facts.lean (FINAL/EOF, buffer size, dialect order). Partial by nature: 'never outlives its deadline' is measured by the harness (timeout/flood responders), not proved; worker goroutines without recover are covered only in so far as gs1.Query itself cannot panic (this property) and the outcome handlers are total (C13).",
+        "text": "Lean theorems over the model of gs1.go (every index/slice expression a checked operation with outcome panic, the scan loop on fuel with outcome hang): feed_total/feed_terminates — processing any datagram after any received prefix neither panics nor loops; feed_cases/runQuery_classes — every datagram sequence ends in response, error (incomplete/malformed) or timeout; empty_datagram; per-function totality (inspect_total, collect_total, parse_total, expand_total); collect_within_cap — the buffer capacity is the sum over all inspected fragments. The model is tied to the code by running the real gs1.Query against a scripted UDP responder on hostile sequences and comparing result class and decoded content; panics are recovered and reported, latency beyond timeout+slack is reported as late. "
+                "Post-query stage of the details prober (Model/Details.lean = details.NewDetailsFromParams + Details.Validate over the generated struct schemas, composed with runQuery as DetailsProbe.probe): "
+                "probe_classes/probe_total - every datagram sequence ends in a details value, err-timeout, err-query, err-parse or err-validate, never panic or hang; detailsOf_total; "
+                "accepted_sound/probe_ok_accepted - a returned details value satisfies the independently written DetailsSpec.accepted (host port > 0, required strings non-empty, gte=0 counters >= 0, "
+                "team in 0..2, co-op status in 0..4, objective status in 0..2, both ratio fields in RatioSpec), with accepted_hostport/_ratios/_players/_objectives as field-by-field readings; "
+                "ratioOk_iff_spec - the model's ValidateRatio accepts exactly RatioSpec (empty, or number/number under strconv.Atoi's sign rules); ratio_rejects_two_slashes/ratio_tag_rejects_two_slashes - "
+                "every value with two or more '/' is rejected; details_facts_ok - the assumptions about the generated schemas. Tied to the code by op dp: the real DetailsProber.Probe against the responder, "
+                "class and canonical details rendering compared, DetailsSpec.accepted evaluated on the value the implementation returned.",
+        "level_note": "Trusted: Lean kernel; axioms propext, Quot.sound, Classical.choice; the finite differential run as evidence that Model/GS1.lean behaves like gs1.go; generated Facts.lean (FINAL/EOF, buffer size, dialect order; struct schemas of details.Info/Player/Objective/Details); the modelled semantics of go-playground/validator v10.26.0 (required on a struct field, dive, oneof, required) as far as the differential run exercises them. Partial by nature: 'never outlives its deadline' is measured by the harness (timeout/flood responders), not proved; worker goroutines without recover are covered only in so far as gs1.Query itself cannot panic (this property) and the outcome handlers are total (C13).",
         "technique": "Lean 4 proof (totality of an explicit-partiality model) + differential correspondence over a real UDP socket",
         "design_ref": "DESIGN.md §5 C07",
     },
